@@ -189,7 +189,7 @@ def eval_read(r, m):
         corr = "agree"
         if has_unmodelled(m):
             corr = "unmodelled"
-        elif r.get("consume") == "next" and m.get("iter_exc") == "ValueError":
+        elif r.get("consume") in filecases.UNCHECKED_STYLES and m.get("iter_exc") == "ValueError":
             corr = "unmodelled"     # the model reads as a for loop does (order enforced); next(reader) bypasses the order check
         elif m != i:
             from .. import colcases
@@ -212,6 +212,48 @@ def eval_read(r, m):
     if "init_exc" not in i and not failures:
         failures = oracle(lines, i, how)
     return i, corr, failures
+
+
+HEADER_VIAS = ["from_lines", "from_line_reader"]
+
+
+def eval_header(hlines, via, mode="Silent"):
+    """Header lines alone through a header factory (MafHeader.from_lines(<list>) / MafHeader.from_line_reader(<LineReader over
+    the text>)): the numbered errors are numbered by physical line, in every mode (error list, warnings, exception)."""
+    import io
+    from maflib.header import MafHeader
+    from maflib.util import LineReader
+    where = {"lines": hlines, "via": "header." + via}
+    if mode != "Silent":
+        where["mode"] = mode
+    exp = [e for e in expected_errors(hlines)[0] if e[1] is not None]
+    info = {"expected": exp, "errors": None, "exc": None, "logs": []}
+    failures = []
+    with impl.LogCapture() as lc:
+        try:
+            if via == "from_lines":
+                h = MafHeader.from_lines(list(hlines), validation_stringency=impl.MODES[mode])
+            else:
+                h = MafHeader.from_line_reader(LineReader(io.StringIO("".join(l + "\n" for l in hlines))), validation_stringency=impl.MODES[mode])
+            info["errors"] = impl.errs_json(h.validation_errors)
+        except Exception as e:  # noqa
+            from ..common import exc_name
+            info["exc"] = exc_name(e)
+    info["logs"] = lc.parsed()
+    if info["errors"] is not None:
+        got = [e for e in info["errors"] if e[1] is not None]
+        if got != exp:
+            failures.append(dict(where, what="header-line errors are not numbered by their physical line", kind="header-line", expected=exp, got=got))
+    elif info["exc"].startswith("MafFormatException:"):
+        _x, tpe, n = info["exc"].split(":")
+        if n != "None" and [tpe, int(n)] not in exp:
+            failures.append(dict(where, what="the format exception %s reports line %s; header lines with that error: %s" % (tpe, n, [e[1] for e in exp if e[0] == tpe]),
+                                 kind="exception-line", got=[tpe, n]))
+    for tpe, n in info["logs"]:
+        if n is not None and [tpe, n] not in exp and not failures:
+            failures.append(dict(where, what="the warning %s reports line %s; header lines with that error: %s" % (tpe, n, [e[1] for e in exp if e[0] == tpe]),
+                                 kind="warning-line", got=[tpe, n]))
+    return info, failures
 
 
 def gen_shape(rng, anns):
@@ -237,7 +279,8 @@ def run(ctx):
                 "position of the text it is about; non-trivial = file with at least one numbered error; distinct files")
     out.rule += ("; the same shapes with empty lines anywhere, LF / CRLF / lone CR / mixed terminators, last line unterminated, read through every reader factory "
                  "(MafReader(lines=<list>), (lines=<iterator>), reader_from(<plain file>), reader_from(<.gz file>)) x consumption style (for / iter()+next() / next(reader)) x "
-                 "Silent / Lenient / Strict: error lists, logged warnings and the format exception all carry physical line numbers")
+                 "Silent / Lenient / Strict: error lists, logged warnings and the format exception all carry physical line numbers; header lines alone (long, malformed and "
+                 "repeated pragmas) through MafHeader.from_lines and MafHeader.from_line_reader in the three modes")
     rng = ctx.rng("files")
     reqs = []
     anns = [None, "gdc-1.0.0", "gdc-1.0.0-public"]
@@ -256,7 +299,7 @@ def run(ctx):
         if rng.random() < 0.7:
             lines = filecases.with_empty_lines(rng, lines, rng.choice([0.2, 0.5]))
         via = rng.choice(filecases.READER_VIAS)
-        kw = {"via": via, "consume": rng.choice(["for", "for", "iter", "next"])}
+        kw = {"via": via, "consume": rng.choice(["for", "for", "iter", "next", "method", "iter-method"])}
         if via in ("path", "gz"):
             kw["text"] = filecases.text_of(rng, lines)
             if not filecases.encodable(kw["text"]):
@@ -264,6 +307,19 @@ def run(ctx):
         if rng.random() < 0.1:
             kw["given"] = rng.choice(anns[1:])
         reqs.append(request(lines, rng.choice(["Silent", "Silent", "Lenient", "Strict"]), **kw))
+    # header lines alone, through the header's own factories
+    rng = ctx.rng("header-factories")
+    for _ in range(ctx.scale(150, 2000)):
+        hlines = filecases.typical_header(rng, rng.choice(anns) or "my-own-spec") + filecases.header_lines(rng, rng.randrange(1, 7))
+        hlines += [rng.choice(hlines) for _ in range(rng.randrange(0, 3))]
+        rng.shuffle(hlines)
+        via, mode = rng.choice(HEADER_VIAS), rng.choice(["Silent", "Silent", "Lenient", "Strict"])
+        out.evaluations += 1
+        info, failures = eval_header(hlines, via, mode)
+        out.failures += failures
+        out.distribution["via:header." + via] += 1
+        if info["expected"]:
+            out.nontrivial.add(repr((hlines, via, mode)))
     mo = ctx.driver.run(reqs)
     for r, m in zip(reqs, mo):
         out.evaluations += 1
@@ -307,6 +363,24 @@ def replay_case(ctx, failure):
         return None
     how = how_of(failure)
     mode = how.pop("mode", "Silent")
+    if str(how.get("via", "")).startswith("header."):
+        via = how["via"][len("header."):]
+        if via not in HEADER_VIAS or mode not in MODES:
+            return None
+        print("executed: MafHeader.%s(<%d header lines>, validation_stringency=%s)" % (via, len(lines), mode))
+        for n, l in enumerate(lines[:14], start=1):
+            print("  line %d: %r" % (n, l[:100]))
+        info, failures = eval_header(lines, via, mode)
+        print("  expected numbered errors %s" % info["expected"])
+        print("implementation: %s" % ("raised %s" % info["exc"] if info["exc"] else "errors %s" % info["errors"][:10]))
+        if mode == "Lenient":
+            print("implementation: warnings logged %s" % [e for e in info["logs"] if e[1] is not None][:10])
+        for g in failures:
+            print("oracle: [%s] %s" % (g["kind"], g["what"]))
+        if not failures:
+            print("oracle: satisfied")
+            failures = filecases.rerun_in_fresh_process("C17", failure, INPUT_KEYS)
+        return failures
     if mode not in MODES or (how.get("via") in ("path", "gz") and not isinstance(how.get("text"), str)):
         return None
     r = request(lines, mode, **how)
@@ -324,7 +398,7 @@ def replay_case(ctx, failure):
               "gz": "MafReader.reader_from(<.gz file of %d characters, %d physical lines>" % (len(how.get("text", "")), len(lines))}[via]
     print("executed: %s, validation_stringency=%s%s), then consumed to the end with %s" % (
         opened, mode, ", scheme=<%s>" % how["given"] if "given" in how else "",
-        {"for": "a for loop", "iter": "iter(reader) and next() on it", "next": "next(reader)"}[style]))
+        filecases.STYLE_TEXT[style]))
     if "text" in how:
         print("  file text: %r" % how["text"][:300])
     for n, l in enumerate(lines[:12], start=1):
